@@ -10,7 +10,7 @@ sys.path.insert(0, os.path.dirname(os.path.dirname(os.path.abspath(__file__))))
 import core   # noqa: E402
 import amod   # noqa: E402
 
-INVS = ["Conservation", "WholeRecords", "TailHeld", "Exact"]
+INVS = ["Conservation", "WholeRecords", "TailHeld", "Exact", "OneAtATime"]
 DELIMS = {"DelimNL": "\n", "DelimNLBar": "\n|", "DelimNLNL": "\n\n"}
 DTLA = {"DelimNL": "<<10>>", "DelimNLBar": "<<10, 124>>", "DelimNLNL": "<<10, 10>>"}
 
@@ -150,9 +150,17 @@ def run(tier, seed, mutant=None, only_validate=False):
                 for fe, init in ((False, "<<>>"), (True, "<<120, 10, 121>>")):
                     r, rec = amod.mc(res, work, "TextFile", "%s_fe%d" % (dname, fe),
                                      dict(Alphabet="<-AlphaDef", Delim="<-DelimDef", Initial="<-InitialDef",
-                                          MaxLen=(6 if tier == "quick" else 7) + (3 if fe else 0), FromEnd=fe), INVS, ["NoReadWhileStopped"], workers=16,
+                                          MaxLen=(6 if tier == "quick" else 7) + (3 if fe else 0), FromEnd=fe, Burst=False), INVS, ["NoReadWhileStopped"], workers=16,
                                      extra_defs="AlphaDef == {120, 10, 124}\nDelimDef == %s\nInitialDef == %s" % (dt, init))
-                    amod.spec_violation(res, r, rec, {}, "C17", "textfile")
+                    amod.spec_violation(res, r, rec, {"OneAtATime": "C03"}, "C17", "textfile")
+            # sensitivity: a source that hands on the records of one read back to back and awaits them together
+            r, rec = amod.mc(res, work, "TextFile", "burst", dict(Alphabet="<-AlphaDef", Delim="<-DelimDef", Initial="<-InitialDef",
+                                                                    MaxLen=5, FromEnd=False, Burst=True), ["OneAtATime"], workers=16,
+                             extra_defs="AlphaDef == {120, 10}\nDelimDef == <<10>>\nInitialDef == <<>>")
+            rec["expected_violation"] = "OneAtATime"
+            rec["ok"] = r.violated == "OneAtATime"
+            if r.violated != "OneAtATime":
+                raise core.MachineryError("sensitivity run: a bursting text source not refuted by OneAtATime")
             r, rec = amod.mc(res, work, "Filenames", "f6", dict(Files="<-FilesDef", Matching="<-MatchingDef"),
                              ["ExactlyOnce", "Complete", "SortedPerPoll"], workers=16,
                              extra_defs="FilesDef == 1 .. 5\nMatchingDef == {1, 2, 3, 4}")
@@ -178,13 +186,17 @@ def run(tier, seed, mutant=None, only_validate=False):
         groups, traces = {}, {}
         for i, r in enumerate(runs, start=1):
             t = []
+            # a consumer that returns an awaitable directly behind the source: the source waits for it (C03)
+            awaited = r["cfg"].get("cons", "future") != "sync" and not r["cfg"].get("via")
             for ev in r["ev"]:
+                if ev["ev"] == "cons_done" and awaited:
+                    t.append({"ev": "Done"})
                 if ev["ev"] == "write":
                     t.append({"ev": "Write", "data": ev["data"]})
                 elif ev["ev"] in ("start", "stop"):
                     t.append({"ev": ev["ev"].capitalize()})
                 elif ev["ev"] == "deliver":
-                    t.append({"ev": "Emit", "rec": ev.get("raw", [-1])})
+                    t.append({"ev": "Emit", "rec": ev.get("raw", [-1]), "async": awaited})
                 elif ev["ev"] == "end":
                     t.append({"ev": "End"})
             c = r["cfg"]
@@ -193,7 +205,7 @@ def run(tier, seed, mutant=None, only_validate=False):
             traces[i] = (r, t)
         glist = [("textfile %s from_end=%s" % k, dict(Alphabet="<-TraceAlphabet", Delim="<-" + k[0],
                                                       Initial="<-InitialText" if k[1] else "<-InitialEmpty",
-                                                      MaxLen=1000, FromEnd=k[1]), ts) for k, ts in groups.items()]
+                                                      MaxLen=1000, FromEnd=k[1], Burst=False), ts) for k, ts in groups.items()]
         reached, problems = amod.validate_groups(work, "TextFileTrace", glist)
         _collect(res, "textfile", traces, reached, problems)
         # ---- real filenames
@@ -265,6 +277,16 @@ def _collect(res, node, traces, reached, problems):
             # start() on the started source and stop();start() must change nothing: a run with such calls that loses or
             # repeats records breaks the source lifecycle (C18) as well
             life = sum(1 for o in r["schedule"] if o in ("S", "T", "M")) > 1 or bool(r["cfg"].get("via"))
+            busy = sum(1 for x in t[:got[0] - 1] if x["ev"] == "Emit" and x.get("async")) - sum(1 for x in t[:got[0] - 1] if x["ev"] == "Done")
+            if evt["ev"] == "Emit" and busy > 0:
+                # the record itself may be the right one: it came while the consumer of the previous one was still busy
+                res.violations.append(dict(
+                    property="C03", engine="asrcfile", clause="OneAtATime",
+                    what="%s %s schedule '%s': event #%d %s -- the source handed on a record while the consumer of the previous one "
+                         "had not finished (%d in flight): the emit was not awaited" % (node, json.dumps(cfg, sort_keys=True)[:300], " ".join(r["schedule"]), got[0], evt, busy),
+                    signature=dict(kind="backpressure", node=node, event="Emit"),
+                    replay=dict(engine="asrcfile", cfg=cfg, schedule=r["schedule"], at=got[0], trace=t[:got[0] + 2])))
+                continue
             res.violations.append(dict(
                 property="C17", also=["C18"] if life else [], engine="asrcfile", clause=evt["ev"],
                 what="%s %s schedule '%s': event #%d %s is not what the specification allows (record lost / duplicated / "
